@@ -23,7 +23,7 @@ pub fn prop() -> Prop {
 fn spec() -> Spec {
     Spec {
         kinds: vec![Kind { name: "filtered_ik", quick: 8_000, thorough: 400_000, serial: false }],
-        rule: "each case = synthetic cell (coarse box meshes, base and tool incl. rotation-only / translation-only / identity transforms, 1..3 obstacles placed on IK branches of the requested pose) built through KinematicsWithShape::new (both first_collision_only values) or ::with_safety (random safety table and mode) x pose x previous x the four inverse entry points; the answer must equal, element for element and bit for bit, the answer of an independently built Tool{Base{OPWKinematics::new_with_constraints}} stack with the elements for which the same robot's collides() is true removed; forward, link poses, constraints() and singularity reports must be the stack's; positioned_robot must carry mesh i at link pose i, the tool at pose 6 and the environment in order. non-trivial = 0 < #removed < #answers of the stack; distinct = hash(cell, pose, entry)",
+        rule: "each case = synthetic cell (coarse box meshes, base and tool incl. rotation-only / translation-only / identity transforms, 1..3 obstacles placed on IK branches of the requested pose) built through KinematicsWithShape::new (both first_collision_only values) or ::with_safety (random safety table and mode) x pose x previous x the four inverse entry points; the answer must equal, element for element and bit for bit, the answer of an independently built Tool{Base{OPWKinematics::new_with_constraints}} stack with the elements for which the same robot's collides() is true removed; forward, link poses, constraints() and singularity reports must be the stack's; positioned_robot must carry mesh i at link pose i, the tool at pose 6 and the environment in order. non-trivial = 0 < #removed < #answers of the stack; distinct = hash(cell, pose, entry) Workload additions: the filter runs on pools of 1..5 workers or the global pool; half of the cells with limits narrower than a turn (odd answer counts); a tenth of the poses exactly on the reach limit, a tenth inside the wrist band (nine answers); NoCheck robots.",
         assumptions: vec!["collides() of the same robot is taken as the definition of 'reported colliding' (its agreement with geometry is C10's subject)"],
         minimums: vec![("oracle_evals", 50_000, 3_000_000), ("calls_with_partial_removal", 1_500, 90_000), ("order_sensitive_cases", 300, 18_000), ("pool.2", 2_000, 100_000)],
     }
@@ -47,6 +47,10 @@ fn run_case(_kind: &str, idx: u64, rng: &mut Rng, mon: &mut Mon, _tier: Tier) {
     let mut cell = Cell::generate(rng, idx, true, true, false);
     // half of the cells have limits narrower than a turn on every joint: single members of the J4/J6 flip
     // pairs drop out, so the stack answers with odd counts as well (3, 5, 7)
+    // sorting weight of the limits: by previous (0), by constraint centres (1) or a mix
+    let weight = *rng.pick(&[0.0, 0.0, 1.0, rng.clone().f()]);
+    let _ = rng.next_u64();
+    cell.constraints = rs_opw_kinematics::constraints::Constraints::new(cell.constraints.from, cell.constraints.to, weight);
     if rng.bool(0.5) {
         let from: [f64; 6] = std::array::from_fn(|_| -rng.range(1.8, 3.2));
         let to: [f64; 6] = std::array::from_fn(|_| rng.range(1.8, 3.2));
@@ -94,6 +98,16 @@ fn run_case(_kind: &str, idx: u64, rng: &mut Rng, mon: &mut Mon, _tier: Tier) {
             let d = rng.range(-0.03, 0.01);
             cell.add_designed_obstacle(rng, &b, target, d);
         }
+    }
+    // a sixth of the cells: the base mesh is a box at a designed gap from the tool or a link of one of the branches
+    // (the tool-base and link-base pairs then decide which answers survive)
+    let designed_base = !branches.is_empty() && rng.bool(0.17);
+    if designed_base {
+        let b = branches[rng.usize(branches.len())];
+        let target = if rng.bool(0.6) { rs_opw_kinematics::kinematic_traits::J_TOOL } else { 1 + rng.usize(5) };
+        let gap = rng.range(-0.04, -0.015);
+        cell.design_base(rng, &b, target, gap);
+        mon.count("cells_with_a_designed_base");
     }
     let ctor = rng.usize(3);
     let first_only = rng.bool(0.5);
@@ -196,6 +210,25 @@ fn run_case(_kind: &str, idx: u64, rng: &mut Rng, mon: &mut Mon, _tier: Tier) {
             Err(_) => continue,
         };
         let flags: Vec<bool> = under.iter().map(|s| robot.collides(s)).collect();
+        // "with the body meshes placed at the same link poses": where the brute-force oracle (meshes placed by the
+        // reference chain) is unambiguous about an answer, the robot's verdict on it must agree
+        if designed_base && robot.body.safety.mode != CheckMode::NoCheck {
+            for (s, reported) in under.iter().zip(flags.iter()) {
+                let o = cell.oracle(s, &cell.safety);
+                let colliding = o.set(Verdict::Colliding);
+                let geometric = if !colliding.is_empty() { Some(true) } else if !o.any_ambiguous() { Some(false) } else { None };
+                mon.count("answers_cross_checked_geometrically");
+                if let Some(g) = geometric {
+                    if g != *reported {
+                        let pair = colliding.iter().next().cloned();
+                        mon.violation(&format!("filtered-ik:verdict-disagrees-with-mesh-placement:{}", if g { "kept-although-meshes-collide" } else { "dropped-although-meshes-are-free" }), "the robot's verdict on an answer disagrees with the meshes placed at the link poses of the underlying stack", detail("placement", json!({"entry": e.name(), "answer": jf(s), "reported_colliding": reported, "geometric_pair": pair})));
+                        break;
+                    } else {
+                        mon.held();
+                    }
+                }
+            }
+        }
         let expected: Vec<[f64; 6]> = under.iter().zip(flags.iter()).filter(|(_, c)| !**c).map(|(s, _)| *s).collect();
         // the filter may run on any pool: the global one (as many workers as cores) or a small one
         // (1..5 workers; answer counts of 2..9 then meet every divisibility relation with the pool size)
